@@ -83,6 +83,13 @@ impl Filter {
         limit: Option<u32>,
         output: &'a mut [u8],
     ) -> Result<&'a Filter, Error> {
+        // the counts are stored as u16
+        for count in [ids.len(), authors.len(), kinds.len()] {
+            if count > u16::MAX as usize {
+                return Err(InnerError::OutOfRange(count).into());
+            }
+        }
+
         let length = Self::output_size_needed(ids, authors, kinds, tags);
         if output.len() < length {
             return Err(InnerError::BufferTooSmall(length).into());
@@ -861,6 +868,9 @@ fn parse_json_filter(input: &[u8], output: &mut [u8]) -> Result<(usize, usize), 
             if input[inpos] == b']' {
                 break;
             }
+            if num_ids == u16::MAX {
+                return Err(InnerError::JsonBadFilter("Too many ids", inpos).into());
+            }
             read_id(input, &mut inpos, &mut output[end..])?;
             num_ids += 1;
             end += ID_SIZE;
@@ -878,6 +888,9 @@ fn parse_json_filter(input: &[u8], output: &mut [u8]) -> Result<(usize, usize), 
             eat_whitespace_and_commas(input, &mut inpos);
             if input[inpos] == b']' {
                 break;
+            }
+            if num_authors == u16::MAX {
+                return Err(InnerError::JsonBadFilter("Too many authors", inpos).into());
             }
             read_pubkey(input, &mut inpos, &mut output[end..])?;
             num_authors += 1;
@@ -906,6 +919,9 @@ fn parse_json_filter(input: &[u8], output: &mut [u8]) -> Result<(usize, usize), 
                 return Err(
                     InnerError::JsonBadFilter("Filter has kind number too large", inpos).into(),
                 );
+            }
+            if num_kinds == u16::MAX {
+                return Err(InnerError::JsonBadFilter("Too many kinds", inpos).into());
             }
             put(output, end, (u as u16).to_ne_bytes().as_slice())?;
             num_kinds += 1;
@@ -944,8 +960,8 @@ fn parse_json_filter(input: &[u8], output: &mut [u8]) -> Result<(usize, usize), 
             let countindex = end;
             end += 2;
             put(output, end, 1_u16.to_ne_bytes().as_slice())?;
-            if output.len() < end + 2 {
-                return Err(InnerError::BufferTooSmall(end + 2).into());
+            if output.len() < end + 3 {
+                return Err(InnerError::BufferTooSmall(end + 3).into());
             }
             output[end + 2] = letter;
 
@@ -965,11 +981,19 @@ fn parse_json_filter(input: &[u8], output: &mut [u8]) -> Result<(usize, usize), 
                     break;
                 }
                 verify_char(input, b'"', &mut inpos)?;
+                if output.len() < end + 2 {
+                    return Err(InnerError::BufferTooSmall(end + 2).into());
+                }
                 // copy  data
                 let (inlen, outlen) = json_unescape(&input[inpos..], &mut output[end + 2..])?;
                 // write len
                 put(output, end, (outlen as u16).to_ne_bytes().as_slice())?;
                 end += 2 + outlen;
+                // the section length, the offsets, the counts and the string lengths
+                // are stored as u16, and none of them can exceed the section length
+                if end - write_tags_start > u16::MAX as usize {
+                    return Err(InnerError::JsonBadFilter("Filter tags are too long", inpos).into());
+                }
                 inpos += inlen + 1;
                 count += 1;
             }
